@@ -605,8 +605,13 @@ def remap_by_types(
             for base_obj in [obj_type, call_method]:
                 attr = getattr(base_obj, "_func_adl_type_info", None)
                 if attr is not None:
-                    r_stream, node = attr(self.stream, node)
-                    assert isinstance(node, ast.AST)
+                    r_stream, new_node = attr(self.stream, node)
+                    assert isinstance(new_node, ast.AST)
+                    if new_node is not node and not hasattr(new_node, "_old_ast"):
+                        # The callback built a new call site: remember which call it replaces
+                        # so the change also reaches a lambda this call is nested in.
+                        new_node._old_ast = getattr(node, "_old_ast", node)  # type: ignore
+                    node = new_node
                     self._stream = r_stream
 
             assert isinstance(node, ast.Call)
